@@ -343,3 +343,71 @@ def _oer_zero_width_list(env, mod, t, v, codec):
         return False
     from .checks import c08
     return c08.has_zero_width_list(env, mod, t, 'oer')
+
+
+
+def _size_on_ref_nodes(env, mod, t, seen=None):
+    """Yield (resolved, is_component) for every REF node that carries a SIZE constraint at its use site."""
+    if seen is None:
+        seen = set()
+    stack = [(mod, t, False)]
+    while stack:
+        m, x, is_comp = stack.pop()
+        if x.kind == 'REF':
+            if x.size is not None:
+                yield env.res(m, x), is_comp
+            try:
+                m2, a = env.lookup(m, x.ref)
+            except KeyError:
+                continue
+            if (m2.name, a.name) in seen:
+                continue
+            seen.add((m2.name, a.name))
+            stack.append((m2, a.t, False))
+        elif x.kind in ('SEQUENCE', 'SET', 'CHOICE'):
+            for c in all_comps(x):
+                stack.append((m, c.t, True))
+        elif x.kind in ('SEQUENCE OF', 'SET OF'):
+            stack.append((m, x.elem, False))
+
+
+@carve('size-constraint-on-type-reference-ignored', ['C19', 'C05', 'C06', 'C11'])
+def _size_on_ref(env, mod, t, v, codec):
+    """A SIZE constraint written on a type reference is ignored by PER/UPER/OER (and
+    JER for BIT STRING) unless the reference is a SEQUENCE/SET/CHOICE member and the referenced type is
+    an OCTET STRING (or, PER/UPER only, a known-multiplier string)."""
+    if codec not in ('per', 'uper', 'oer', 'jer'):
+        return False
+    for r, is_comp in _size_on_ref_nodes(env, mod, t):
+        k = r.base.kind
+        if codec == 'jer':
+            if k == 'BIT STRING':      # JER only looks at the SIZE of BIT STRING (fixed size => hex string form)
+                return True
+            continue
+        honoured = is_comp and (k == 'OCTET STRING' or (codec != 'oer' and k in KM))
+        if not honoured:
+            return True
+    return False
+
+
+
+@carve('ber-nested-choice-recursive-alternative-loses-level', ['C01', 'C19', 'C03', 'C04', 'C07', 'C13', 'C18'])
+def _ber_nested_choice_recursive(env, mod, t, v, codec):
+    """BER/DER: CHOICE with an untagged CHOICE alternative that itself has an
+    alternative closing a recursion cycle: depending on compile order the inner
+    alternative's tag is registered directly in the outer CHOICE and decoding
+    drops one CHOICE level."""
+    if codec not in ('ber', 'der'):
+        return False
+    for r in _constructed_nodes(env, mod, t):
+        if r.base.kind != 'CHOICE':
+            continue
+        auto = tagging.component_autotags(env, r.mod, r.base)
+        for c in all_comps(r.base):
+            ls, cr = tagging.layers(env, r.mod, c.t, auto.get(c.name))
+            if ls or cr.base.kind != 'CHOICE':
+                continue
+            for c2 in all_comps(cr.base):
+                if is_recursive_ref(env, cr.mod, c2.t):
+                    return True
+    return False
